@@ -441,3 +441,84 @@ def guards_at(fn, node):
     # short-circuit operands inside the same full expression are separate CFG
     # blocks, so they are already covered by dominating_conditions
     return out
+
+
+# ---------------------------------------------------------------------------
+# ordering guards
+def cmp_atom(n):
+    """(op, lhs, rhs) if n is a comparison (built-in or overloaded)."""
+    n = strip_casts(n)
+    if not is_node(n):
+        return None
+    if n['k'] == 'bin' and n['op'] in CMP_OPS:
+        return (n['op'], n['lhs'], n['rhs'])
+    if n['k'] == 'call' and n.get('opc') in CMP_OPS and len(n.get('args', [])) == 2:
+        return (n['opc'], n['args'][0], n['args'][1])
+    return None
+
+
+NEG = {'<': '>=', '>': '<=', '<=': '>', '>=': '<', '==': '!=', '!=': '=='}
+SWAP = {'<': '>', '>': '<', '<=': '>=', '>=': '<=', '==': '==', '!=': '!='}
+
+
+def establishes_order(fn, guards, a, b, strict=False):
+    """Does some guard establish a > b (strict) or a >= b? Operands compared
+    by normalised rendering. Returns the guard atom or None."""
+    ra, rb = render(fn, strip_casts(a)), render(fn, strip_casts(b))
+    want = {'>'} if strict else {'>', '>='}
+    for atom, pol in guards:
+        c = cmp_atom(atom)
+        if not c:
+            continue
+        op, l, r = c
+        if not pol:
+            op = NEG[op]
+        rl, rr = render(fn, strip_casts(l)), render(fn, strip_casts(r))
+        if rl == ra and rr == rb and op in want:
+            return atom
+        if rl == rb and rr == ra and SWAP[op] in want:
+            return atom
+    return None
+
+
+def local_defs(fn, did):
+    """Defining expressions of a local: its initialiser and every assignment."""
+    out = []
+    for n in fn.all_nodes():
+        if n['k'] == 'decl':
+            for v in n['vars']:
+                if v.get('did') == did and v.get('init') is not None:
+                    out.append((n, v['init']))
+        elif n['k'] == 'bin' and n['op'] == '=':
+            l = strip_casts(n['lhs'])
+            if is_node(l) and l['k'] == 'ref' and l.get('did') == did:
+                out.append((n, n['rhs']))
+        elif n['k'] == 'call' and n.get('opc') == '=' and n.get('args'):
+            l = strip_casts(n['args'][0])
+            if is_node(l) and l['k'] == 'ref' and l.get('did') == did:
+                out.append((n, n['args'][1]))
+    return out
+
+
+def locals_in(n):
+    return {x['did'] for x in walk(n) if x['k'] == 'ref' and x.get('dk') in ('local', 'param')}
+
+
+def reassigned_between(fn, dids, guard_block, use_node):
+    """Is any of the locals assigned on a path from the guard to the use?"""
+    cfg = fn.cfg
+    ub = cfg.node_block(use_node)
+    for did in dids:
+        for site, _ in local_defs(fn, did):
+            if site['k'] == 'decl':
+                continue
+            sb = cfg.node_block(site)
+            if sb is None:
+                continue
+            if sb == ub:
+                before_use = cfg.node_pos(site)[1] < cfg.node_pos(use_node)[1]
+            else:
+                before_use = cfg._reaches(sb, ub, avoid={guard_block})
+            if cfg.dominates(guard_block, sb) and sb != guard_block and before_use:
+                return site
+    return None
